@@ -516,5 +516,118 @@ theorem truncate_tail_eq (N : Nat) (posts : List α) :
   rw [truncate_eq_flush xid _ _ (by simp)]
   exact truncFlush_tail xid N posts
 
+/-! ### both counts, negative counts -/
+
+/-- the window of truncate_xacts::flush, over the comparison operators read from the source -/
+theorem truncPrint_iff (h t l i : Int) :
+    truncPrint h t l i = true ↔
+      (h > 0 ∧ i < h) ∨ (h < 0 ∧ i ≥ -h) ∨ (t > 0 ∧ l - i ≤ t) ∨ (t < 0 ∧ l - i > -t) := by
+  unfold truncPrint
+  simp only [Gen.Regroup.truncHeadPos, Gen.Regroup.truncHeadNeg, Gen.Regroup.truncTailPos,
+    Gen.Regroup.truncTailNeg, Gen.Regroup.Cmp.eval]
+  by_cases h0 : h = 0 <;> by_cases t0 : t = 0 <;>
+    by_cases a1 : (h > 0 ∧ i < h) <;> by_cases a2 : (h < 0 ∧ i ≥ -h) <;>
+    by_cases a3 : (t > 0 ∧ l - i ≤ t) <;> by_cases a4 : (t < 0 ∧ l - i > -t) <;>
+    simp_all <;> omega
+
+/-- For every pair of counts the handler (state machine, early stop, flush) keeps the
+    transactions whose index passes the window of flush. -/
+theorem truncate_window (rows : List α) :
+    truncate xid head tail rows =
+      selRuns (fun j => truncPrint head tail ((runs xid rows).length : Nat) (j : Int)) 0 (runs xid rows) := by
+  by_cases hs : tail = 0 ∧ head > 0
+  · obtain ⟨ht, hh⟩ := hs
+    subst ht
+    have hN : head = ((head.toNat : Nat) : Int) := by omega
+    rw [hN, truncate_head_eq, ← truncFlush_head, truncFlush_eq_selRuns]
+  · rw [truncate_eq_flush xid head tail hs, truncFlush_eq_selRuns]
+
+theorem selRuns_congr (p q : Nat → Bool) (gs : List (List α)) (k : Nat)
+    (h : ∀ j, k ≤ j → j < k + gs.length → p j = q j) : selRuns p k gs = selRuns q k gs := by
+  induction gs generalizing k with
+  | nil => rfl
+  | cons g gs ih =>
+    simp only [selRuns]
+    rw [h k (by omega) (by simp), ih (k + 1) (fun j h1 h2 => h j (by omega) (by simp at h2 ⊢; omega))]
+
+theorem selRuns_union (N M L : Nat) (gs : List (List α)) (k : Nat) (hL : L = k + gs.length) :
+    selRuns (fun j => decide (j < N) || decide (L - j ≤ M)) k gs =
+      (gs.take (N - k) ++ gs.drop (max (N - k) (gs.length - M))).flatten := by
+  induction gs generalizing k with
+  | nil => simp [selRuns]
+  | cons g gs ih =>
+    simp only [selRuns, List.length_cons] at hL ⊢
+    rw [ih (k + 1) (by omega)]
+    by_cases hk : k < N
+    · have e1 : N - k = (N - (k + 1)) + 1 := by omega
+      have e2 : max (N - k) (gs.length + 1 - M) = max (N - (k + 1)) (gs.length - M) + 1 := by omega
+      rw [e2, e1]
+      simp [hk]
+    · have e1 : N - k = 0 := by omega
+      have e1' : N - (k + 1) = 0 := by omega
+      rw [e1, e1']
+      by_cases hm : L - k ≤ M
+      · have e2 : gs.length + 1 - M = 0 := by omega
+        have e3 : gs.length - M = 0 := by omega
+        simp [hk, hm, e2, e3]
+      · have e2 : max 0 (gs.length + 1 - M) = max 0 (gs.length - M) + 1 := by omega
+        rw [e2]
+        simp [hk, hm]
+
+theorem selRuns_dropFront (K : Nat) (gs : List (List α)) (k : Nat) :
+    selRuns (fun j => decide (K ≤ j)) k gs = (gs.drop (K - k)).flatten := by
+  induction gs generalizing k with
+  | nil => simp [selRuns]
+  | cons g gs ih =>
+    simp only [selRuns, ih]
+    by_cases hk : K ≤ k
+    · have e1 : K - k = 0 := by omega
+      have e2 : K - (k + 1) = 0 := by omega
+      simp [hk, e1, e2]
+    · have e1 : K - k = (K - (k + 1)) + 1 := by omega
+      rw [e1]; simp [hk]
+
+/-- `--head N --tail M`: the first N transactions, then those of the last M that are not among them -/
+theorem truncate_head_tail_eq (N M : Nat) (rows : List α) :
+    truncate xid (N : Int) (M : Int) rows =
+      ((runs xid rows).take N ++ (runs xid rows).drop (max N ((runs xid rows).length - M))).flatten := by
+  rw [truncate_window]
+  have := selRuns_union (α := α) N M (runs xid rows).length (runs xid rows) 0 (by simp)
+  simp only [Nat.sub_zero] at this
+  rw [← this]
+  apply selRuns_congr
+  intro j _ hj
+  simp only [Nat.zero_add] at hj
+  rw [Bool.eq_iff_iff, truncPrint_iff]
+  simp only [Bool.or_eq_true, decide_eq_true_eq]
+  omega
+
+/-- `--head -K` (K ≥ 1): all but the first K transactions -/
+theorem truncate_neg_head_eq (K : Nat) (hK : 0 < K) (rows : List α) :
+    truncate xid (-(K : Int)) 0 rows = ((runs xid rows).drop K).flatten := by
+  rw [truncate_window]
+  have := selRuns_dropFront (α := α) K (runs xid rows) 0
+  simp only [Nat.sub_zero] at this
+  rw [← this]
+  apply selRuns_congr
+  intro j _ _
+  rw [Bool.eq_iff_iff, truncPrint_iff]
+  simp only [decide_eq_true_eq]
+  omega
+
+/-- `--tail -K` (K ≥ 1): all but the last K transactions -/
+theorem truncate_neg_tail_eq (K : Nat) (hK : 0 < K) (rows : List α) :
+    truncate xid 0 (-(K : Int)) rows = ((runs xid rows).take ((runs xid rows).length - K)).flatten := by
+  rw [truncate_window]
+  have := selRuns_take (α := α) ((runs xid rows).length - K) (runs xid rows) 0
+  simp only [Nat.sub_zero] at this
+  rw [← this]
+  apply selRuns_congr
+  intro j _ hj
+  simp only [Nat.zero_add] at hj
+  rw [Bool.eq_iff_iff, truncPrint_iff]
+  simp only [decide_eq_true_eq]
+  omega
+
 end Regroup
 end Ledger
